@@ -98,3 +98,8 @@ pub fn narrow(x: u64) -> u16 {
 pub fn narrow_ok(x: u64) -> u8 {
     (x & 0xff) as u8
 }
+
+/// C13-Q5: a call that creates missing ancestors.
+pub fn make_all(path: &str) -> std::io::Result<()> {
+    std::fs::create_dir_all(path)
+}
